@@ -4,6 +4,9 @@
 #define PS_TABLE_H
 #include "vrt.h"
 #include "ps_layout.h"
+#ifdef __cplusplus
+#define _Static_assert static_assert
+#endif
 struct ps_table {
   uint32_t ndim; uint32_t* order; vr64** knots; uint64_t* nknots; vr64** extents; vr64* periods;
   vr32* coefficients; uint64_t* naxes; uint64_t* strides; uint32_t naux; char*** aux; char allocator;
